@@ -47,6 +47,11 @@ Added for the warm-up / recording rule (spec `lean/gen/warmup.json`):
 * `for x in xs:` with loop-carried locals (state = the kept locals assigned in the body, and the trace);
   `x -= e` / `x += e`, `a - b`, `a + b`, `<`, `<=`, `>`, `>=` on ints (`V.sub`, `V.add`, `V.lt`, ...: `none`
   on anything that is not an int or bool); the conditional expression `a if c else b`.
+* more for `trace` units (failure classification, spec `lean/gen/failure_class.json`): `return <text>` as a final
+  event (`return_events`), `obj.attr = e` as an event (`attr_events`), events that keep only some of their
+  arguments (`keep`), a tuple assignment from a declared call whose targets become inputs (`assigned_inputs`),
+  nested function definitions bound to ignored names, inputs that are module-level integer constants of another
+  source file (`const`), `assert`.
 * unit kind `call_arg`: the n-th argument of the one call of a given method inside a function, as a function
   of the declared inputs (the reload rule inside `_parse_data_line`).
 """
@@ -70,6 +75,8 @@ def cls_name(n):
 
 
 def lean_ty(t):
+    if t.startswith('(') and ' × ' in t:
+        return t
     if t.startswith('List '):
         return 'List %s' % lean_ty_atom(t[5:])
     if t.startswith('OptList '):
@@ -80,6 +87,10 @@ def lean_ty(t):
 def lean_ty_atom(t):
     r = lean_ty(t)
     return '(%s)' % r if ' ' in r else r
+
+
+def lean_chars(s):
+    return '[%s]' % ', '.join("'%s'" % ('\\\\' if c == '\\' else "\\'" if c == "'" else c) for c in s)
 
 
 def lean_str(s):
@@ -99,6 +110,7 @@ class Fn(object):
         self.methods = ctx.get('methods', {})    # (class or union, method) -> [{'params': [(n, t)], 'ret': t, 'lean': name}]
         self.bases = ctx.get('bases', {})        # class -> base class (declared records only)
         self.cls = ctx.get('cls')                # class of the unit being translated
+        self.consts = ctx.get('consts', {})      # module-level integer constants of the unit's source file
         self.inputs = ctx.get('inputs', {})      # source text -> (lean term, type): values read from the environment
         self.tr = ctx.get('trace')               # trace mode: {'events', 'ignore_locals', 'ignore_calls', 'ignore_fields', 'units'}
         self.fall = None                         # what falling off the end of the current block means (trace mode)
@@ -191,7 +203,30 @@ class Fn(object):
         if isinstance(e, ast.Name):
             if e.id in env:
                 return [], lean_name(e.id), env[e.id]
+            if e.id in self.consts:
+                v = self.consts[e.id]                    # a module-level integer constant of the unit's source file
+                return [], '(V.int %d)' % v if v >= 0 else '(V.int (-%d))' % -v, 'V'
             raise Unsupported('unknown name %s' % e.id)
+        if isinstance(e, ast.Tuple) and len(e.elts) == 2:
+            b1, a, ta = self.expr(e.elts[0], env)
+            b2, c, tc = self.expr(e.elts[1], env)
+            return b1 + b2, '(%s, %s)' % (a, c), '(%s × %s)' % (lean_ty(ta), lean_ty(tc))
+        if isinstance(e, ast.ListComp):
+            # [x for x in xs if c]: the elements of a list that satisfy a condition, in order
+            if len(e.generators) != 1 or e.generators[0].is_async or not isinstance(e.generators[0].target, ast.Name) \
+                    or not (isinstance(e.elt, ast.Name) and e.elt.id == e.generators[0].target.id):
+                raise Unsupported('list comprehension of this shape')
+            g = e.generators[0]
+            b, t, ty = self.expr(g.iter, env)
+            if not ty.startswith('List '):
+                raise Unsupported('comprehension over a %s' % ty)
+            env2 = dict(env, **{g.target.id: ty[5:]})
+            test = g.ifs[0] if len(g.ifs) == 1 else ast.BoolOp(op=ast.And(), values=list(g.ifs)) if g.ifs \
+                else ast.Constant(value=True)
+            if isinstance(test, ast.Constant):
+                return b, t, ty
+            n = self.fresh()
+            return b + [(n, '(filterOpt %s fun %s => %s)' % (t, lean_name(g.target.id), self.opt_term(test, env2)))], n, ty
         if isinstance(e, ast.Attribute):
             b, t, ty = self.expr(e.value, env)
             if ty in self.records:
@@ -230,6 +265,13 @@ class Fn(object):
                     raise Unsupported('`is` other than with None')
                 t = '(V.isNone %s)' % a
                 return b1, t if isinstance(op, ast.Is) else '(! %s)' % t, 'Bool'
+            if isinstance(op, (ast.In, ast.NotIn)) and isinstance(e.left, ast.Constant) and isinstance(e.left.value, str):
+                b2, c, tc = self.expr(right, env)         # "lit" in x, for a str x (TypeError / other containers = none)
+                if tc != 'V':
+                    raise Unsupported('`in` on a %s' % tc)
+                n = self.fresh()
+                return b2 + [(n, '(V.contains %s %s)' % (lean_chars(e.left.value), c))], \
+                    n if isinstance(op, ast.In) else '(! %s)' % n, 'Bool'
             b2, c, tc = self.expr(right, env)
             if ta != 'V' or tc != 'V':
                 raise Unsupported('comparison of non-values')
@@ -327,6 +369,14 @@ class Fn(object):
                 up = '{ ' + ', '.join('%s := self.%s' % (lean_name(x), lean_name(x)) for x in self.records[base]) + \
                     ' : %s }' % cls_name(base)
                 return self.method_call(up, base, f.attr, e, env, [])
+            # x.startswith("lit") on a str value
+            if f.attr == 'startswith' and len(e.args) == 1 and not e.keywords and isinstance(e.args[0], ast.Constant) \
+                    and isinstance(e.args[0].value, str):
+                b, t, ty = self.expr(v, env)
+                if ty != 'V':
+                    raise Unsupported('startswith of a %s' % ty)
+                n = self.fresh()
+                return b + [(n, '(V.startswith %s %s)' % (lean_chars(e.args[0].value), t))], n, 'Bool'
             # x.split("c") on a str value
             if f.attr == 'split' and len(e.args) == 1 and not e.keywords and isinstance(e.args[0], ast.Constant) \
                     and isinstance(e.args[0].value, str) and len(e.args[0].value) == 1:
@@ -425,12 +475,58 @@ class Fn(object):
             return ast.unparse(s.value.func) in self.tr['ignore_calls']
         if isinstance(s, ast.If):
             return all(self.droppable(x) for x in list(s.body) + list(s.orelse))
+        if isinstance(s, ast.FunctionDef):
+            return s.name in self.tr['ignore_locals']
         return False
 
     def trace_stmt(self, s, rest, env, ret, self_ty, indent):
         pad = '  ' * indent
         if self.droppable(s):
             return self.block(rest, env, ret, self_ty, indent)
+        if isinstance(s, ast.Assign) and len(s.targets) == 1 and isinstance(s.targets[0], ast.Tuple) \
+                and isinstance(s.value, ast.Call) and ast.unparse(s.value.func) in self.tr.get('assigned_inputs', {}):
+            # (a, b, _) = declared_call(...): the targets are inputs of the translation
+            decl = self.tr['assigned_inputs'][ast.unparse(s.value.func)]
+            names = [t.id if isinstance(t, ast.Name) else None for t in s.targets[0].elts]
+            if names != list(decl):
+                raise Unsupported('targets of %s are %s, spec says %s' % (ast.unparse(s.value.func), names, list(decl)))
+            env2 = dict(env)
+            for n_, ty_ in decl.items():
+                if ty_ != 'Opaque':
+                    env2[n_] = ty_
+            ev_ = self.tr.get('assigned_input_events', {}).get(ast.unparse(s.value.func))
+            return (pad + 'let trace := trace ++ [Event.%s]\n' % ev_ if ev_ else '') + self.block(rest, env2, ret, self_ty, indent)
+        if isinstance(s, ast.Assign) and len(s.targets) == 1 and isinstance(s.targets[0], ast.Attribute) \
+                and ast.unparse(s.targets[0]) in self.tr.get('attr_events', {}):
+            ev = self.tr['attr_events'][ast.unparse(s.targets[0])]
+            if isinstance(s.value, ast.Constant) and isinstance(s.value.value, bool):
+                b_, t_, ty_ = [], 'true' if s.value.value else 'false', 'Bool'
+            else:
+                b_, t_, ty_ = self.expr(s.value, env)
+            if ty_ != ev['type']:
+                raise Unsupported('%s is assigned a %s' % (ast.unparse(s.targets[0]), ty_))
+            body = pad + 'let trace := trace ++ [Event.%s %s]\n' % (ev['name'], t_) + self.block(rest, env, ret, self_ty, indent)
+            return self.wrap(b_, body, pad)
+        if isinstance(s, ast.Return) and s.value is not None and ast.unparse(s.value) in self.tr.get('return_events', {}):
+            if self.in_loop:
+                raise Unsupported('return inside a loop')
+            return pad + 'let trace := trace ++ [Event.%s]\n' % self.tr['return_events'][ast.unparse(s.value)] + \
+                pad + 'some trace'
+        if isinstance(s, ast.Raise) and isinstance(s.exc, ast.Call) and isinstance(s.exc.func, ast.Name) \
+                and s.exc.func.id in self.tr.get('raise_events', {}):
+            # raise X(...): the last event of the trace
+            if self.in_loop:
+                raise Unsupported('raise inside a loop')
+            return pad + 'let trace := trace ++ [Event.%s]\n' % self.tr['raise_events'][s.exc.func.id] + pad + 'some trace'
+        if isinstance(s, ast.With):
+            # with <declared lock>: held to the end of the function (nothing may follow the statement)
+            if len(s.items) != 1 or s.items[0].optional_vars is not None \
+                    or ast.unparse(s.items[0].context_expr) not in self.tr.get('lock_events', {}):
+                raise Unsupported('with %s' % ', '.join(ast.unparse(i_) for i_ in s.items))
+            if rest or self.in_loop:
+                raise Unsupported('statements after the region of %s' % ast.unparse(s.items[0].context_expr))
+            return pad + 'let trace := trace ++ [Event.%s]\n' % self.tr['lock_events'][ast.unparse(s.items[0].context_expr)] + \
+                self.block(list(s.body), env, ret, self_ty, indent)
         if isinstance(s, ast.If) and self.reads_ignored(s.test):
             raise Unsupported('an `if` that tests an ignored name contains a kept statement')
         if isinstance(s, (ast.Continue, ast.Break)):
@@ -438,6 +534,19 @@ class Fn(object):
         if isinstance(s, ast.Try):
             if s.finalbody or s.orelse:
                 raise Unsupported('try with else / finally')
+            th = self.tr.get('try_handlers', {})
+            if th:
+                # declared handlers: whether the body raises that exception is an input; the handler must end the function
+                if len(s.handlers) != 1 or not isinstance(s.handlers[0].type, ast.Name) or s.handlers[0].type.id not in th:
+                    raise Unsupported('try with handlers other than the declared %s' % sorted(th))
+                h = s.handlers[0]
+                if not isinstance(h.body[-1], (ast.Raise, ast.Return)):
+                    raise Unsupported('the handler of %s does not end the function' % h.type.id)
+                if h.name:
+                    self.tr['ignore_locals'].add(h.name)
+                return pad + 'if %s then\n%s\n%selse\n%s' % (
+                    lean_name(th[h.type.id]), self.block(list(h.body), env, ret, self_ty, indent + 1), pad,
+                    self.block(list(s.body) + rest, env, ret, self_ty, indent + 1))
             # only the try body: an exception is `none` in any case
             return self.block(list(s.body) + rest, env, ret, self_ty, indent)
         if isinstance(s, ast.AugAssign) and isinstance(s.target, ast.Name) and isinstance(s.op, (ast.Sub, ast.Add)):
@@ -449,6 +558,10 @@ class Fn(object):
             ev = self.tr['events'].get(fn)
             if ev is not None:
                 given = ([s.value.func.value] if ev.get('receiver') else []) + list(s.value.args)
+                if ev.get('keep') is not None:
+                    if s.value.keywords or max(ev['keep'] + [-1]) >= len(given):
+                        raise Unsupported('event %s: arguments' % fn)
+                    given = [given[k_] for k_ in ev['keep']]
                 if s.value.keywords or len(given) != len(ev['args']):
                     raise Unsupported('event %s: arguments' % fn)
                 binds, terms = [], []
@@ -466,9 +579,20 @@ class Fn(object):
                 return self.wrap(binds, body, pad)
             sub = self.tr['units'].get(fn)
             if sub is not None:                               # another trace unit, spliced in
-                b_, terms, types = self.args(s.value, env)
+                if s.value.keywords or len(s.value.args) != len(sub['all_types']):
+                    raise Unsupported('%s: arguments' % fn)
+                b_, terms, types = [], [], []
+                for a_, want_ in zip(s.value.args, sub['all_types']):
+                    if want_ == 'Opaque':
+                        continue                              # not looked at by the callee's translation
+                    x_, t_, ty_ = self.expr(a_, env)
+                    b_ += x_
+                    terms.append(t_)
+                    types.append(ty_)
                 if types != sub['types']:
                     raise Unsupported('%s called with %s' % (fn, types))
+                if self.tr.get('raise_events') and (rest or self.in_loop):
+                    raise Unsupported('%s may end in a raise event and is not the last statement' % fn)
                 n = self.fresh()
                 body = pad + 'let trace := trace ++ %s\n' % n + self.block(rest, env, ret, self_ty, indent)
                 return self.wrap(b_ + [(n, '(%s %s)' % (sub['lean'], ' '.join(sub['extra'] + terms)))], body, pad)
@@ -603,6 +727,9 @@ class Fn(object):
             if isinstance(tg, ast.Attribute) and isinstance(tg.value, ast.Name) and tg.value.id == 'self' \
                     and self_ty is not None:
                 f_ = self.field_of(self_ty, tg.attr)
+                if f_ is not None and self.ftype(self_ty, f_) == 'Bool' and isinstance(s.value, ast.Constant) \
+                        and isinstance(s.value.value, bool):
+                    b, t, ty = [], 'true' if s.value.value else 'false', 'Bool'
                 if f_ is None or not (ty == self.ftype(self_ty, f_) or (ty == 'List ?' and self.ftype(self_ty, f_).startswith('List '))):
                     raise Unsupported('assignment to self.%s' % tg.attr)
                 body = pad + 'let self := { self with %s := %s }\n' % (lean_name(f_), t) + \
@@ -799,7 +926,11 @@ def translate(spec, repo):
         out.append('/-- the calls that are kept as events, in the order they happen -/')
         out.append('inductive Event where')
         for ev in spec['events']:
-            events[ev['call']] = {'name': ev['name'], 'args': list(ev['args']), 'receiver': ev.get('receiver', False)}
+            if 'call' not in ev:                          # attribute / return events: only the constructor
+                out.append('  | %s %s' % (ev['name'], ' '.join('(a%d : %s)' % (k, lean_ty_atom(t)) for k, t in enumerate(ev.get('args', [])))))
+                continue
+            events[ev['call']] = {'name': ev['name'], 'args': list(ev['args']), 'receiver': ev.get('receiver', False),
+                                  'keep': ev.get('keep')}
             out.append('  | %s %s' % (ev['name'], ' '.join('(a%d : %s)' % (k, lean_ty_atom(t)) for k, t in enumerate(ev['args']))))
         out.append('deriving Repr, DecidableEq')
         out.append('')
@@ -808,7 +939,21 @@ def translate(spec, repo):
         """declared readings of the environment: source text -> (term, type); those with a `param` become parameters"""
         table, params = {}, []
         for text, d in u.get('inputs', {}).items():
-            if 'param' in d:
+            if 'const' in d:
+                # a module-level integer constant of another source file, read from the current source
+                val = None
+                for n_ in tree(d['const']['source']).body:
+                    if isinstance(n_, ast.Assign) and len(n_.targets) == 1 and isinstance(n_.targets[0], ast.Name) \
+                            and n_.targets[0].id == d['const']['name']:
+                        v_ = n_.value
+                        if isinstance(v_, ast.UnaryOp) and isinstance(v_.op, ast.USub) and isinstance(v_.operand, ast.Constant):
+                            val = -v_.operand.value
+                        elif isinstance(v_, ast.Constant):
+                            val = v_.value
+                if not isinstance(val, int) or isinstance(val, bool):
+                    raise Unsupported('constant %s not found as an integer in %s' % (d['const']['name'], d['const']['source']))
+                table[text] = ('(V.int %d)' % val if val >= 0 else '(V.int (-%d))' % -val, 'V')
+            elif 'param' in d:
                 table[text] = (lean_name(d['param']), d['type'])
                 if (d['param'], d['type']) not in params:
                     params.append((d['param'], d['type']))
@@ -819,10 +964,15 @@ def translate(spec, repo):
     for u in spec['units']:
         if u.get('kind') == 'trace':
             _tbl, ip = unit_inputs(u)
+            ip = list(ip)
+            for decl in u.get('assigned_inputs', {}).values():
+                ip += [(n_, ty_) for n_, ty_ in decl.items() if ty_ != 'Opaque' and n_ is not None]
+            ip += [(p_, 'Bool') for p_ in u.get('try_handlers', {}).values()]
             trace_units['self.' + u['name']] = {
                 'lean': '%s_%s' % (cls_name(u['class']), u['name'].lstrip('_')),
                 'types': [t for (_n, t) in u['params'].items() if t != 'Opaque'],
-                'extra': [lean_name(n_) for (n_, _t) in ip]}
+                'all_types': [t for (_n, t) in u['params'].items()],
+                'extra': [lean_name(n_) for (n_, _t) in ip], 'extra_typed': ip}
 
     def signature(first, params):
         return ' '.join(first + ['(%s : %s)' % (lean_name(p_), lean_ty(t)) for p_, t in params.items()])
@@ -920,6 +1070,8 @@ def translate(spec, repo):
                     raise Unsupported('%s.__init__: field %s' % (cls, s_.targets[0].attr))
                 b_, t_, ty_ = tr.expr(s_.value, env)
                 want_ty = tr.ftype(cls, f_)
+                if want_ty == 'Bool' and isinstance(s_.value, ast.Constant) and isinstance(s_.value.value, bool):
+                    b_, t_, ty_ = [], 'true' if s_.value.value else 'false', 'Bool'
                 if not (ty_ == want_ty or (ty_ == 'List ?' and want_ty.startswith('List '))):
                     raise Unsupported('%s.__init__: self.%s gets a %s' % (cls, f_, ty_))
                 binds += b_
@@ -940,13 +1092,32 @@ def translate(spec, repo):
             tr = Fn(spec, records, funcs, dict(ctx, cls=u.get('class'), inputs=table, trace={
                 'events': events, 'ignore_locals': set(u.get('ignore_locals', [])),
                 'ignore_calls': set(u.get('ignore_calls', [])), 'ignore_fields': set(u.get('ignore_fields', [])),
+                'assigned_inputs': u.get('assigned_inputs', {}), 'attr_events': u.get('attr_events', {}),
+                'return_events': u.get('return_events', {}), 'raise_events': u.get('raise_events', {}),
+                'lock_events': u.get('lock_events', {}), 'try_handlers': u.get('try_handlers', {}),
+                'assigned_input_events': u.get('assigned_input_events', {}),
                 'units': dict((k_, v_) for k_, v_ in trace_units.items() if k_ != 'self.' + u['name'])}))
             env = dict((p_, t) for p_, t in u['params'].items() if t != 'Opaque')
+            for decl in u.get('assigned_inputs', {}).values():
+                for n_, ty_ in decl.items():
+                    if ty_ != 'Opaque' and n_ is not None:
+                        iparams.append((n_, ty_))
+                    elif n_ is not None:
+                        tr.tr['ignore_locals'].add(n_)
+            for p_ in u.get('try_handlers', {}).values():
+                iparams.append((p_, 'Bool'))
+            for n_ in ast.walk(fn):                      # the inputs of the trace units it calls are its inputs too
+                if isinstance(n_, ast.Call) and ast.unparse(n_.func) in trace_units and ast.unparse(n_.func) != 'self.' + u['name']:
+                    for pt in trace_units[ast.unparse(n_.func)]['extra_typed']:
+                        if pt not in iparams:
+                            iparams.append(pt)
             tr.fall = 'some trace'
             body = tr.block(fn.body, env, 'List Event', None, 1)
             sig = ' '.join(['(%s : %s)' % (lean_name(n_), lean_ty(t)) for (n_, t) in iparams] +
                            ['(%s : %s)' % (lean_name(p_), lean_ty(t)) for p_, t in u['params'].items() if t != 'Opaque'])
-            out.append('/-- the events of `%s.%s` (of a `try` statement only the body is translated) -/' % (u['class'], u['name']))
+            out.append('/-- the events of `%s.%s` (%s) -/' % (
+                u['class'], u['name'], 'whether the body of its `try` raises %s is an input' % ' / '.join(u['try_handlers'])
+                if u.get('try_handlers') else 'of a `try` statement only the body is translated'))
             out.append('def %s_%s %s : Option (List Event) :=\n  let trace : List Event := []\n%s\n' % (
                 cls_name(u['class']), u['name'].lstrip('_'), sig, body))
         elif kind == 'call_arg':
@@ -963,6 +1134,46 @@ def translate(spec, repo):
             out.append('/-- argument %d of `%s(...)` in `%s.%s` -/' % (u['arg'], u['call'], u.get('class'), u['name']))
             out.append('def %s %s : Option %s :=\n%s\n' % (u['lean_name'], sig, u['returns'],
                                                            Fn.wrap(b_, '  some %s' % t_, '  ')))
+        elif kind == 'exit_map':
+            # a function whose body is one `try`: what it returns when the body ends normally (as a function of the
+            # declared inputs) and when the body raises an exception of a class a handler names.  A handler is
+            # `<statements without return / raise>; return <constant>`; handlers are tried in order, an exception no
+            # handler names propagates (`none`).  Classes are compared by name (no subclass relation).
+            stmts = [s_ for s_ in fn.body if not (isinstance(s_, ast.Expr) and isinstance(s_.value, ast.Constant))]
+            if got or len(stmts) != 1 or not isinstance(stmts[0], ast.Try) or stmts[0].orelse or stmts[0].finalbody:
+                raise Unsupported('%s is not a parameterless function of one try statement' % u['name'])
+            consts = {}
+            for n_ in tree(u['source']).body:
+                if isinstance(n_, ast.Assign) and len(n_.targets) == 1 and isinstance(n_.targets[0], ast.Name) \
+                        and isinstance(n_.value, ast.Constant) and isinstance(n_.value.value, int) \
+                        and not isinstance(n_.value.value, bool):
+                    consts[n_.targets[0].id] = n_.value.value
+            table, iparams = unit_inputs(u)
+            tr = Fn(spec, records, funcs, dict(ctx, cls=None, inputs=table, consts=consts))
+            dropped = set(u.get('ignore_statements', []))
+            body = tr.block([s_ for s_ in stmts[0].body if ast.unparse(s_) not in dropped], {}, 'V', None, 2)
+            arms = []
+            for h in stmts[0].handlers:
+                if not isinstance(h.type, ast.Name):
+                    raise Unsupported('handler for %s' % (ast.unparse(h.type) if h.type else 'everything'))
+                last = h.body[-1]
+                if not isinstance(last, ast.Return) or last.value is None or \
+                        any(isinstance(n_, (ast.Return, ast.Raise)) for s_ in h.body[:-1] for n_ in ast.walk(s_)):
+                    raise Unsupported('handler of %s is not `...; return <constant>`' % h.type.id)
+                b_, t_, ty_ = tr.expr(last.value, {})
+                if b_ or ty_ != 'V':
+                    raise Unsupported('handler of %s returns %s' % (h.type.id, ast.unparse(last.value)))
+                arms.append((h.type.id, t_))
+            sig = ' '.join('(%s : %s)' % (lean_name(n_), lean_ty(t)) for (n_, t) in iparams)
+            chain = '      none'
+            for (exc, t_) in reversed(arms):
+                chain = '      if exc = %s then some %s else\n%s' % (json.dumps(exc), t_, chain)
+            out.append('/-- `%s`: the value returned when the body of its `try` ends normally (`raised = none`) or raises an\n'
+                       'exception of the class named (`none`: the exception propagates) -/' % u['name'])
+            out.append('def %s %s (raised : Option String) : Option V :=\n  match raised with\n  | Option.none =>\n%s\n'
+                       '  | some exc =>\n%s\n' % (lean_name(u['name']), sig, body, chain))
+            out.append('/-- the exception classes `%s` handles, in order -/' % u['name'])
+            out.append('def %s_handled : List String := [%s]\n' % (lean_name(u['name']), ', '.join(json.dumps(a) for a, _t in arms)))
         else:
             raise Unsupported('unit kind %s' % kind)
     out.append('end %s' % spec['namespace'])
